@@ -18,6 +18,7 @@ EVIDENCE_DIR = os.path.join(ROOT, 'evidence')
 REPLAY_DIR = os.path.join(ROOT, 'replays')
 KNOWN_FILE = os.path.join(ROOT, 'known_findings.json')
 REPO = '/repo'
+MAX_REPLAY_FILES = 40
 NPROC = int(os.environ.get('VERIF_NPROC', '16'))
 
 
@@ -182,9 +183,12 @@ class Reporter:
         if self.violations:
             # fewest-deviation / shortest first: callers add in that order; we sort by replay size as tie-break
             vdir = os.path.join(REPLAY_DIR, self.pid)
+            if os.path.isdir(vdir):
+                for fn in os.listdir(vdir):
+                    os.unlink(os.path.join(vdir, fn))
             os.makedirs(vdir, exist_ok=True)
             shown = 0
-            for sig, detail, replay in self.violations:
+            for sig, detail, replay in self.violations[:MAX_REPLAY_FILES]:
                 rp = os.path.join(vdir, short_hash(sig) + '.json')
                 with open(rp, 'w') as f:
                     json.dump(
@@ -199,8 +203,8 @@ class Reporter:
                     print(f'  signature: {canon(sig)[:400]}')
                     print(f'  detail: {canon(detail)[:600]}')
                 shown += 1
-            if shown > 20:
-                print(f'... {shown - 20} further violations written to {vdir}')
+            if len(self.violations) > 20:
+                print(f'... {len(self.violations)} violations in total; the first {min(len(self.violations), MAX_REPLAY_FILES)} written to {vdir}')
             print(f'{self.pid} {self.tier}: {len(self.violations)} violation(s), wall {wall:.1f}s')
             return 1
         print(f'{self.pid} {self.tier}: OK  {summary_line(cov)} wall {wall:.1f}s')
